@@ -177,7 +177,7 @@ Definition run_threads_n (clk : positive) (n : nat) (base : Z) (comm : bytes) (a
 
 (* wave 8: Process handles, copies and PROCFS_PATH (C06/Handles.v); a record is named by a number, the harness knows what
    each number publishes.  [model; spec without deep copies; spec when deep copies are delivered] *)
-From PV Require Import C06.Handles.
+From PV Require Export C06.Handles.
 Definition jhres (r : hres Z) : jv :=
   match r with
   | RNone _ => JC "Unit" []
